@@ -469,6 +469,43 @@ Proof.
     destruct (get_thread i (threads s1)) as [[|[] rest]|]; try exact I1. apply Hth.
 Qed.
 
+(* ---- a failed write of the temp file *)
+Lemma fail_step_fields : forall s j k,
+  let s' := fail_step s j k in
+  s' = s \/
+  (up s' = up s /\ broken s' = broken s /\ live_ s' = live_ s /\ next_id s' = next_id s /\
+   pending s' = pending s /\ hist s' = hist s /\ acks s' = acks s /\ dat (fs s') = dat (fs s) /\
+   lock s' = None /\
+   (threads s' = threads s \/
+    exists i rest, j_owner j = Some i /\ get_thread i (threads s) = Some (MAwait :: rest) /\
+                   threads s' = put_thread i rest (threads s))).
+Proof.
+  intros s j k. cbv zeta. unfold fail_step. destruct (j_phase j); try (left; reflexivity).
+  destruct (lookup (j_tmp j) (tmps (fs s))) as [c|]; [|left; reflexivity].
+  right. destruct (j_owner j) as [i|]; [|cbn; repeat (split; [reflexivity|]); left; reflexivity].
+  cbn [threads w_lock w_fs]. destruct (get_thread i (threads s)) as [[|[] rest]|] eqn:E;
+    cbn; repeat (split; [reflexivity|]); try (left; reflexivity).
+  right. exists i, rest. auto.
+Qed.
+
+(* a write fault never touches nsqd.dat *)
+Lemma fail_keeps_dat : forall s j k, dat (fs (fail_step s j k)) = dat (fs s).
+Proof.
+  intros s j k. destruct (fail_step_fields s j k) as [->|(_ & _ & _ & _ & _ & _ & _ & H & _)]; [reflexivity|exact H].
+Qed.
+
+Lemma Inv1_fail : forall s j k, Inv1 s -> lock s = Some j -> Inv1 (fail_step s j k).
+Proof.
+  intros s j k I Hl. destruct (i1_job s I j Hl) as [Hup _].
+  destruct (fail_step_fields s j k) as [->|(E1 & E2 & E3 & E4 & E5 & E6 & E7 & E8 & E9 & _)]; [exact I|].
+  constructor.
+  - rewrite E2. apply (i1_broken s I).
+  - intros _. rewrite E6, E3. apply (i1_hist s I Hup).
+  - intros c Hc. rewrite E8 in Hc. rewrite E6. apply (i1_dat s I c Hc).
+  - intros j' Hj'. rewrite E9 in Hj'. discriminate.
+  - rewrite E1, Hup. discriminate.
+Qed.
+
 Lemma Inv1_boot : forall s l nid, Inv1 s -> Inv1 (boot s l nid).
 Proof.
   intros s l nid I. constructor; cbn.
@@ -484,7 +521,7 @@ Qed.
 
 Lemma Inv1_step : forall s e, Inv1 s -> Inv1 (step s e).
 Proof.
-  intros s e I. destruct e as [i o|i| |k| |]; rewrite step_fixed; cbn [step_].
+  intros s e I. destruct e as [i o|i| |k|kf| |]; rewrite step_fixed; cbn [step_].
   - (* EStart *)
     destruct (up s) eqn:Hup; [|exact I].
     destruct (get_thread i (threads s)); [exact I|].
@@ -507,6 +544,8 @@ Proof.
     + rewrite Hup. discriminate.
   - (* EPersist *)
     destruct (lock s) as [j|] eqn:Hl; [|exact I]. apply Inv1_persist; assumption.
+  - (* EFault *)
+    destruct (lock s) as [j|] eqn:Hl; [|exact I]. apply Inv1_fail; assumption.
   - (* EKill *)
     destruct (up s) eqn:Hup; [|exact I]. constructor; cbn.
     + apply (i1_broken s I).
@@ -680,7 +719,7 @@ Qed.
 
 Lemma Inv3_step : forall s e, Inv3 s -> Inv3 (step s e).
 Proof.
-  intros s e I. destruct e as [i o|i| |k| |]; rewrite step_fixed; cbn [step_].
+  intros s e I. destruct e as [i o|i| |k|kf| |]; rewrite step_fixed; cbn [step_].
   - destruct (up s); [|exact I]. destruct (get_thread i (threads s)); [exact I|].
     intros j q Hin. cbn in Hin. apply in_app_or in Hin. destruct Hin as [Hin|[Hin|[]]]; [eapply I; exact Hin|].
     inversion Hin; subst. cbn. intuition discriminate.
@@ -699,6 +738,11 @@ Proof.
       eapply Inv3_put; [exact I| |reflexivity].
       assert (Hw : wf_prog (MAwait :: rest)) by (eapply I; apply get_thread_in; exact Hth).
       apply Hw.
+  - destruct (lock s) as [j|]; [|exact I].
+    destruct (fail_step_fields s j kf) as [->|(_ & _ & _ & _ & _ & _ & _ & _ & _ & [E|(i & rest & _ & Hg & E)])]; [exact I| |].
+    + intros i p Hin. rewrite E in Hin. eapply I. exact Hin.
+    + eapply Inv3_put; [exact I| |exact E].
+      assert (Hw : wf_prog (MAwait :: rest)) by (eapply I; apply get_thread_in; exact Hg). apply Hw.
   - destruct (up s); [|exact I]. intros j q Hin. contradiction.
   - destruct (up s || broken s); [exact I|]. unfold restart.
     destruct (dat (fs s)) as [c|]; [destruct (complete c); [destruct (load (f_doc c) (next_id s))|]|];
@@ -839,7 +883,7 @@ Definition Inv0 (s : st) : Prop := ids_ok (live_ s) (next_id s).
 
 Lemma Inv0_step : forall s e, Inv0 s -> Inv0 (step s e).
 Proof.
-  intros s e I. unfold Inv0 in *. destruct e as [i o|i| |k| |]; rewrite step_fixed; cbn [step_].
+  intros s e I. unfold Inv0 in *. destruct e as [i o|i| |k|kf| |]; rewrite step_fixed; cbn [step_].
   - destruct (up s); [|exact I]. destruct (get_thread i (threads s)); exact I.
   - destruct (get_thread i (threads s)) as [[|m rest]|] eqn:Hth; try exact I.
     destruct (exec_live_change true s i m rest) as [Hn [E|[(g & n & f & Hf & E)|[(t & E & En & _)|(t & E & _)]]]]; rewrite E.
@@ -857,6 +901,8 @@ Proof.
     + destruct (lookup (j_tmp j) (tmps (fs s))) as [c|]; [|exact I].
       destruct (j_owner j) as [i|]; [|exact I]. cbn.
       destruct (get_thread i (threads s)) as [[|[] rest]|]; exact I.
+  - destruct (lock s) as [j|]; [|exact I].
+    destruct (fail_step_fields s j kf) as [->|(_ & _ & E3 & E4 & _)]; [exact I|]. rewrite E3, E4. exact I.
   - destruct (up s); [|exact I]. cbn. split; [constructor|intros t []].
   - destruct (up s || broken s); [exact I|]. unfold restart.
     destruct (dat (fs s)) as [c|].
@@ -1252,9 +1298,14 @@ Proof.
     + intros _. destruct I2 as [Hfr|Ho]; [left; apply (F1 Hfr (threads s1))|right; apply O1; exact Ho].
 Qed.
 
-Lemma Inv2_step : forall s e, Inv0 s -> Inv1 s -> Inv3 s -> Inv2 s -> Inv2 (step s e).
+(* write faults: after a failed persist the file is stale until the next successful one, so
+   the idle theorem is about schedules without them *)
+Definition not_fault (e : ev) : Prop := match e with EFault _ => False | _ => True end.
+Definition fault_free (evs : list ev) : Prop := Forall not_fault evs.
+
+Lemma Inv2_step : forall s e, not_fault e -> Inv0 s -> Inv1 s -> Inv3 s -> Inv2 s -> Inv2 (step s e).
 Proof.
-  intros s e I0 I1 I3 I2. destruct e as [i o|i| |k| |]; rewrite step_fixed; cbn [step_].
+  intros s e NF I0 I1 I3 I2. destruct e as [i o|i| |k|kf| |]; rewrite step_fixed; cbn [step_].
   - destruct (up s) eqn:Hup; [|exact I2]. destruct (get_thread i (threads s)); [exact I2|].
     intros _. destruct (I2 Hup) as [H|H]; [left; exact H|right].
     destruct H as [H|(j & q & Hin & Hq)]; [left; exact H|right]. exists j, q. cbn. split; [apply in_or_app; left; exact Hin|exact Hq].
@@ -1262,6 +1313,7 @@ Proof.
   - destruct (lock s) eqn:Hl; [exact I2|]. destruct (pending s) eqn:Hp; [exact I2|].
     intros _. left. unfold fresh. cbn [lock live_ fs w_lock w_pending]. apply fresh_new_job.
   - destruct (lock s) as [j|] eqn:Hl; [|exact I2]. apply Inv2_persist; assumption.
+  - destruct NF.
   - destruct (up s); [|exact I2]. intros H. discriminate.
   - destruct (up s || broken s); [exact I2|]. unfold restart.
     destruct (dat (fs s)) as [c|].
@@ -1272,24 +1324,32 @@ Qed.
 
 Record InvAll (s : st) : Prop := { ia0 : Inv0 s; ia1 : Inv1 s; ia3 : Inv3 s; ia2 : Inv2 s }.
 
-Lemma InvAll_run : forall evs, InvAll (run init evs).
+Lemma InvAll_init : InvAll init.
 Proof.
-  intros. apply run_invariant.
-  - intros s e [A B C D]. constructor; [apply Inv0_step|apply Inv1_step|apply Inv3_step|apply Inv2_step]; assumption.
-  - constructor; [apply Inv0_init|apply Inv1_init| |].
-    + intros i p H. contradiction.
-    + intros H. discriminate.
+  constructor; [apply Inv0_init|apply Inv1_init| |].
+  - intros i p H. contradiction.
+  - intros H. discriminate.
 Qed.
+
+Lemma InvAll_run_from : forall evs s, fault_free evs -> InvAll s -> InvAll (run s evs).
+Proof.
+  induction evs as [|e evs IH]; intros s Hf I; cbn; [exact I|].
+  inversion Hf; subst. apply IH; [assumption|]. destruct I as [A B C D].
+  constructor; [apply Inv0_step|apply Inv1_step|apply Inv3_step|apply Inv2_step]; assumption.
+Qed.
+
+Lemma InvAll_run : forall evs, fault_free evs -> InvAll (run init evs).
+Proof. intros. apply InvAll_run_from; [assumption|apply InvAll_init]. Qed.
 
 (* C06_idle_full: whenever the daemon is idle (no request in progress, no Notify goroutine
    pending, nobody persisting) nsqd.dat is a complete document equal to the persisted form
    of the live state -- for every interleaving of requests, Notify goroutines, persist
    steps, kills and restarts. *)
-Lemma idle_full : forall evs,
+Lemma idle_full : forall evs, fault_free evs ->
   let s := run init evs in
   idle s -> exists c, dat (fs s) = Some c /\ complete c = true /\ f_synced c = true /\ f_doc c = snapshot (live_ s).
 Proof.
-  intros evs s (Hup & Hth & Hp & Hl). destruct (InvAll_run evs) as [_ I1 _ I2]. fold s in I1, I2.
+  intros evs Hff s (Hup & Hth & Hp & Hl). destruct (InvAll_run evs Hff) as [_ I1 _ I2]. fold s in I1, I2.
   destruct (I2 Hup) as [H|[H|(i & p & Hin & _)]].
   - unfold fresh in H. rewrite Hl in H. destruct H as (c & Hc & Hd). exists c.
     destruct (i1_dat s I1 c Hc) as (? & ? & _). auto.
